@@ -14,6 +14,16 @@ pub struct Case {
 
 pub struct C01;
 
+/// does the (sanitised) program raise an exactly-zero base to a power?
+pub fn has_zero_base_pow(e: &Expr, x: &[f64]) -> bool {
+    match e {
+        Expr::Var(_) | Expr::Const(_) => false,
+        Expr::Pow(a, _, _) => eval_f64(a, x) == 0.0 || has_zero_base_pow(a, x),
+        Expr::Neg(a, _) | Expr::Abs(a) | Expr::Exp(a) | Expr::Log(a) | Expr::NormCdf(a) | Expr::InvNormCdf(a) => has_zero_base_pow(a, x),
+        Expr::Bin(_, _, l, r) => has_zero_base_pow(l, x) || has_zero_base_pow(r, x),
+    }
+}
+
 pub fn fmt_vec(v: &[f64]) -> String {
     format!("[{}]", v.iter().map(|x| format!("{:.12e}", x)).collect::<Vec<_>>().join(", "))
 }
@@ -54,11 +64,12 @@ impl Property for C01 {
         let e = sanitise(&p.expr, &x, &mut rewrites);
         let plain = eval_f64(&e, &x);
         let jet = eval_jet(&e, &x);
-        if !plain.is_finite() || jet.g.iter().any(|g| !g.is_finite()) || jet.gmag.iter().any(|g| !g.is_finite() || *g > 1e30) {
+        if !plain.is_finite() || !jet.bounds_finite(false) {
             v.label("skipped:non-finite");
             return v;
         }
         v.label_if(rewrites > 0, "sanitised");
+        v.label_if(has_zero_base_pow(&e, &x), "pow:zero-base");
         let ops = e.operators();
         let mut used = Vec::new();
         e.vars_used(&mut used);
@@ -76,7 +87,7 @@ impl Property for C01 {
             Ok(Val::F(f)) => {
                 // variable-free program: only the value can be compared
                 v.label("variable-free");
-                if (f - plain).abs() > jet.vtol(1e-12) {
+                if !((f - plain).abs() <= jet.vtol(1e-12)) {
                     v.fail("value | variable-free program", format!("{} vs {}", f, plain));
                 }
                 return v;
@@ -95,14 +106,14 @@ impl Property for C01 {
         v.label_if(p.tags.iter().any(|t| !matches!(t, Tagging::Own)), "tagging:padded-or-shared");
 
         // (1) value
-        if (d.real() - plain).abs() > jet.vtol(1e-12) {
+        if !((d.real() - plain).abs() <= jet.vtol(1e-12)) {
             v.fail("value differs from plain float evaluation", format!("dual real = {:e}, f64 evaluation = {:e}", d.real(), plain));
             return v;
         }
         // (2) gradient
         let g = grad_by_name(&d, n);
         for i in 0..n {
-            if (g[i] - jet.g[i]).abs() > jet.gtol(i, 1e-10) {
+            if !((g[i] - jet.g[i]).abs() <= jet.gtol(i, 1e-10)) {
                 v.fail(
                     "gradient differs from the true partial derivative",
                     format!("d/d{}: dual {:e}, reference {:e} (scale {:e}); all: {} vs {}", NAMES[i], g[i], jet.g[i], jet.gmag[i], fmt_vec(&g), fmt_vec(&jet.g)),
@@ -134,7 +145,7 @@ impl Property for C01 {
         }) {
             Ok(Val::D(t)) => {
                 let gt = grad_by_name(&t, n);
-                if (t.real() - d.real()).abs() > jet.vtol(1e-12) || (0..n).any(|i| (gt[i] - g[i]).abs() > jet.gtol(i, 1e-11)) {
+                if !((t.real() - d.real()).abs() <= jet.vtol(1e-12)) || (0..n).any(|i| !((gt[i] - g[i]).abs() <= jet.gtol(i, 1e-11))) {
                     v.fail(
                         "float operand differs from promoted constant",
                         format!("with floats: {:e} {}; with constants promoted to duals: {:e} {}", d.real(), fmt_vec(&g), t.real(), fmt_vec(&gt)),
@@ -149,7 +160,7 @@ impl Property for C01 {
             }
         }
         // reference self-check on a deterministic 2% sample
-        if (plain.to_bits() >> 7) % 50 == 0 {
+        if (plain.to_bits() >> 7) % 50 == 0 && x.iter().all(|xi| xi.abs() >= 0.1 && xi.abs() <= 10.0) {
             v.label("reference-self-checked");
             if let Some(m) = self_check(&e, &x, &jet, false) {
                 v.fail("oracle-self-check | reference gradient disagrees with finite differences", m);
@@ -181,7 +192,8 @@ impl Property for C01 {
             f.push(Floor { label: u, min });
         }
         f.push(Floor { label: "tagging:padded-or-shared", min: tier.pick(50_000, 500_000) });
-        f.push(Floor { label: "reference-self-checked", min: tier.pick(2_000, 15_000) });
+        f.push(Floor { label: "reference-self-checked", min: tier.pick(1_000, 10_000) });
+        f.push(Floor { label: "pow:zero-base", min: tier.pick(1_000, 15_000) });
         f
     }
 
